@@ -429,7 +429,7 @@ def gen_cases(tier, seed):
             else:
                 sc = [single_rsp(op, 0x0000)]
             c = _case(op, "valid-delayed-threads", sc, rng, mode="exhaust", followup="echo_release")
-            c["sched"] = {"reactor_late": 0.03, "caller_late": 0.06}
+            c["sched"] = {"reactor_late": 0.15, "caller_late": 0.3}
             cases.append(c)
     rng.shuffle(cases)
     for c in cases:
@@ -1098,7 +1098,7 @@ def _run_once(case):
                 C("undocumented_end_aborted_%s" % bool(es.get("aborted_end")))
             if end == "established":
                 if stolen:
-                    V("reactor-consumed-response|%s" % ("followup-echo" if fo.get("echo") is None and "echo" in fo and es.get("established_after_op") else op),
+                    V("reactor-consumed-response|%s" % ("delays-injected" if case.get("sched") else "natural"),
                       "a response of a stream without extra messages was taken off the DIMSE queue by the association reactor "
                       "instead of the calling send_* method: %r; yields %r, follow-up %r, delays injected: %r" % (stolen, obs[:6], fo, case.get("sched")))
                 elif not es.get("established_after_op"):
